@@ -319,7 +319,10 @@ class UnicodeSubset(MutableSet[CodePoint]):
         obj = self.__copy__()
         return obj.__isub__(other)
 
-    __rsub__ = __sub__
+    def __rsub__(self, other: object) -> 'UnicodeSubset':
+        if not isinstance(other, Iterable):
+            return NotImplemented
+        return UnicodeSubset(other).__isub__(self)  # type: ignore[arg-type]
 
     def __iand__(self, other: object) -> 'UnicodeSubset':
         if not isinstance(other, Iterable):
